@@ -422,6 +422,20 @@ theorem reader_after_drop {w : World} (h : Reach w) {r r' : Nat} (hr : r ∈ w.r
     List.length_filter_lt_length_iff_exists.mpr ⟨r, hr, by simp⟩
   exact Nat.lt_of_lt_of_le this h.inv.R.readers_le
 
+/-! ## objects outliving their ports -/
+
+/-- an `EntryHandleMut` works whether or not its `Writer` is still alive (it keeps the writer's shared state) -/
+theorem update_needs_no_live_writer {w : World} {h : Nat} {m : HMut} (v : Val) (hf : findH w.hmuts h = some m)
+    (hn : m.loan = none) : (step w (.update h v)).2 = .ok := by
+  simp [step, update, hf, hn]
+
+/-- an `EntryHandle` works whether or not its `Reader` is still alive, and answers the entry's current value -/
+theorem get_needs_no_live_reader {w : World} (h : Reach w) {g : Nat} {m : RHandle} (hf : findG w.rhandles g = some m) :
+    ∃ c, w.cells[m.key]? = some c ∧ (step w (.get g)).2 = .val c.cur := by
+  have hk := h.inv.R.g_key m (findG_some hf).1
+  refine ⟨w.cells[m.key], List.getElem?_eq_getElem hk, ?_⟩
+  simp [step, get, hf, List.getElem?_eq_getElem hk]
+
 /-! ## non-vacuity: concrete histories (types: 0 = u64, 1 = [u64; 3]) -/
 
 /-- second writer / second handle refused, handle outlives its writer and keeps the slot, recovery after the
